@@ -52,10 +52,10 @@ CHECKS = {
          "streams rejected by pass 1 or not starting at a root element are vacuous (counted); size limit 16 MiB during pass 1", "DESIGN.md §5 C02"),
  "C09": ("exploration", "runtime monitor: paired executions of the real writer on the same tree (Full vs Start/End, deprecated vs option API, short-write schedules) + reference header decode of the output",
          "The same random tree is written in several presentations and the destination byte streams (and per-call destination lengths) are compared byte for byte; the output is walked with the reference header decoder to check that every explicit width is used exactly, unknown-size masters carry all-ones sizes, and ids/payload bytes equal those of the all-default encoding; four partial-write schedules of the destination (1 byte, random limits, Interrupted injections) must deliver identical bytes.",
-         "Full is only used where every descendant has default options; writer-rejected trees are vacuous", "DESIGN.md §5 C09"),
+         "Full is only used where every descendant has default options (the master itself may carry any option, unknown size included); writer-rejected trees are vacuous", "DESIGN.md §5 C09"),
  "C10": ("exploration", "runtime monitor: recording destination inspected after every writer call against a shadow stack kept from the call history; reference decoder judges completeness",
          "Random call histories with known- and unknown-size masters interleaved (cut at random points, optional flush) run on the real writer with a recording sink; after every call the monitor checks: content only grows; while a known-size master is open the destination length is unchanged; whenever an element/Full/End call returns Ok with no known-size master open the destination is walked exactly by the reference decoder guided by the partial tree of everything accepted so far; after flush()/into_inner() the destination decodes to the whole tree with all masters closed.",
-         "sink is append-only by construction (io::Write), so retraction is structurally impossible; unknown-size masters are never presented as Full", "DESIGN.md §5 C10"),
+         "sink is append-only by construction (io::Write), so retraction is structurally impossible", "DESIGN.md §5 C10"),
  "C19": ("fault_enumeration", "runtime monitor: fault injection of rejected calls at every position of valid call histories, differential against the history without them",
          "For each generated valid call history every insertion position (all of them in thorough; all for histories <=14 calls in quick) receives failing calls of one of ten kinds (misplaced leaf/master, size not representable in requested width for leaf and Full, unknown size on a leaf via both APIs, malformed raw id, wrong End, Full with an invalid child at depth 1-3, several in a row); per-call results of the original calls, the result of into_inner() and the final destination bytes must equal those of the history without the failing calls.",
          "I/O errors are not injected (outside the property); candidates the writer accepts are vacuous", "DESIGN.md §5 C19"),
@@ -90,7 +90,7 @@ ADD = {
 NOTE = {
  "C07": "masters with a placeholder in their path keep unknown size only where what follows ends them under every reading (nothing, a root element, a declared ancestor; no child that looks like a sibling or ancestor); masters directly followed by a global/raw element are not eligible (ambiguity excluded by the statement)",
  "C06": "closings of unknown-size placeholder masters that may contain themselves are a don't-care; behaviour after a source I/O error is not judged (not promised by any property)",
- "C10": "sink is append-only by construction (io::Write), so retraction is structurally impossible; unknown-size masters are never presented as Full; a destination whose write() fails is not exercised (the unchanged writer drops its buffer then; no property covers it)",
+ "C10": "sink is append-only by construction (io::Write), so retraction is structurally impossible; a destination whose write() fails is not exercised (the unchanged writer drops its buffer then; no property covers it)",
 }
 NOT_YET = {}
 ALL = [json.loads(l)["id"] for l in open(os.path.join(V, "properties.jsonl"))]
